@@ -20,10 +20,31 @@ def discovery_fn(ctx):
         if f.kind not in ("method", "fn"):
             continue
         walk = any((c.get("res") or "").startswith("walkdir::WalkDir::new") for _b, c in f.calls())
-        par = any("rayon" in (c.get("res") or "") or "rayon" in (c.get("fn") or "") for _b, c in f.calls())
-        if walk and par:
+        if walk and _uses_rayon(ctx, f):
             cands.append(f)
     return cands[0] if len(cands) == 1 else None
+
+
+def _uses_rayon(ctx, f, depth=0):
+    """rayon in f itself or in a phase extracted from it (a local function it calls, one level)"""
+    if any("rayon" in (c.get("res") or "") or "rayon" in (c.get("fn") or "") for _b, c in f.calls()):
+        return True
+    if depth == 0:
+        for _b, c in f.calls():
+            g = ctx.bin.fns.get(c.get("res")) if c.get("res_local") else None
+            if g is not None and g.id != f.id and g.kind in ("fn", "method") and _uses_rayon(ctx, g, 1):
+                return True
+    return False
+
+
+def parallel_phase_fns(ctx, f):
+    """the functions in which the parallel per-file phase of walk f is written: f, its closures, and a phase helper with its closures"""
+    fam = [f] + [h for h in ctx.bin.real_fns() if h.root == f.id and h.id != f.id]
+    for _b, c in f.calls():
+        g = ctx.bin.fns.get(c.get("res")) if c.get("res_local") else None
+        if g is not None and g.id != f.id and g.kind in ("fn", "method") and _uses_rayon(ctx, g, 1):
+            fam += [g] + [h for h in ctx.bin.real_fns() if h.root == g.id and h.id != g.id]
+    return fam
 
 
 def _derives_from_call(f, op, pattern, depth=0, seen=None):
@@ -166,8 +187,8 @@ def _name_tests(f, depth=0):
                 tgt.append(c["res"])
             for cid, loc in c.get("clos", []):
                 g = f.crate.fns.get(cid)
-                if g is not None and g.kind in ("fn", "method"):
-                    tgt.append(cid)
+                if g is not None and (g.kind in ("fn", "method") or (g.kind == "closure" and len(g.blocks) < 40)):
+                    tgt.append(cid)    # a named predicate, or a small closure (`.is_some_and(|name| name == "conftest.py" || ..)`)
             for a in c["args"]:
                 k = op_const(a)
                 if k and k.get("res_local") and k.get("res") in f.crate.fns:
@@ -230,7 +251,7 @@ def r10f_no_short_circuit(ctx):
         r.anchor_missing("workspace walk", "not found")
         return r
     n = 0
-    for g in [f] + [h for h in ctx.bin.real_fns() if h.root == f.id and h.id != f.id]:
+    for g in parallel_phase_fns(ctx, f):
         for bb, c in g.calls():
             fn_ = c.get("fn") or ""
             if "rayon" not in fn_ and "rayon" not in (c.get("res") or ""):
@@ -255,12 +276,13 @@ def r10f_no_short_circuit(ctx):
     # a closure that is handed a BATCH of files loops over it: that loop is left only when the batch is exhausted (a `return`
     # on the first unreadable file skips the rest of its batch)
     from .r1e import natural_loops, _iterator_driven, _skip_goto
-    for g in [h for h in ctx.bin.real_fns() if h.root == f.id and h.kind == "closure"]:
+    phase = parallel_phase_fns(ctx, f)
+    for g in [h for h in phase if h.kind == "closure"]:
         site = ctx.bin.closure_sites().get(g.id)
         if site is None:
             continue
         handed_to_rayon = any(any(cid == g.id for cid, _l in c.get("clos", [])) and ("rayon" in (c.get("fn") or "") or "rayon" in (c.get("res") or ""))
-                              for h in ctx.bin.real_fns() if h.root == f.id for _bb, c in h.calls())
+                              for h in phase for _bb, c in h.calls())
         if not handed_to_rayon:
             continue
         for hd, latches, body in natural_loops(g):
